@@ -108,3 +108,32 @@ Definition dot_parse (text : string) : option (list (string * string)) :=
     | None => None
     end
   end.
+
+(* ---- printing side: the statements coca emits, and escapeStr ---- *)
+
+(* strings.ReplaceAll(s, "\"", "\\\"") *)
+Fixpoint escape_quotes (s : string) : string :=
+  match s with
+  | EmptyString => EmptyString
+  | String c r =>
+    if Ascii.eqb c c_dquote then String c_bslash (String c_dquote (escape_quotes r))
+    else String c (escape_quotes r)
+  end.
+
+Inductive stmt := SEdge (a b : string) | SBlank | SRankdir.
+
+Definition render_stmt (s : stmt) : string :=
+  match s with
+  | SEdge a b => dquote ++ escape_quotes a ++ dquote ++ " -> " ++ dquote ++ escape_quotes b ++ dquote ++ ";" ++ nl
+  | SBlank => nl
+  | SRankdir => "rankdir = LR;" ++ nl
+  end.
+
+Definition render_stmts (l : list stmt) : string := String.concat "" (map render_stmt l).
+
+Definition stmt_edges (l : list stmt) : list (string * string) :=
+  flat_map (fun s => match s with SEdge a b => [(a, b)] | _ => [] end) l.
+
+(* a name that can be printed inside a DOT quoted string after escaping its quotes *)
+Definition plain_char (c : ascii) : bool := negb (Ascii.eqb c c_bslash) && negb (Ascii.eqb c c_nl).
+Definition plain (s : string) : bool := forallb plain_char (chars s).
